@@ -319,6 +319,9 @@ func (m *Morass) Finalise() error {
 
 // Clear resets the Morass to an empty state.
 func (m *Morass) Clear() error {
+	// Chunk writers may still be running if a Push failed.
+	m.writers.Wait()
+
 	var err error
 	for _, f := range m.files {
 		err = f.file.Close()
